@@ -29,6 +29,7 @@ macro "presok_step" : tactic => `(tactic| first
   | with_reducible exact presOk_dropGuard _ | with_reducible exact presOk_initTable
   | with_reducible exact presOk_initString _ | with_reducible exact presOk_tableInsert _ _ _
   | with_reducible exact presOk_guardVal _ | with_reducible exact presOk_unguardVal _
+  | with_reducible exact presOk_guardRows _ | with_reducible exact presOk_unguardRows _
   | with_reducible exact presOk_callKV (by assumption) _ _
   | with_reducible exact presOk_call1 (by assumption) _
   | with_reducible apply presOk_bind | (with_reducible apply presOk_forIn; intro _ _) | intro _
@@ -38,6 +39,10 @@ macro "presok_step" : tactic => `(tactic| first
 
 theorem presOk_mkRow (k v b : Val) : PresOk Bal (mkRow k v b) := by
   unfold mkRow
+  repeat presok_step
+
+theorem presOk_mkRowG (es : List (Val × Val)) (k v b : Val) : PresOk Bal (mkRowG es k v b) := by
+  unfold mkRowG
   repeat presok_step
 
 theorem presOk_scanStep (isMin : Bool) {re : Reenter} {keyFn : Val} (hb : Balanced re keyFn 2)
@@ -73,9 +78,19 @@ theorem presOk_sortTail (kd : List (Val × Val × Val)) (h : Heap) : PresOk Bal 
     | with_reducible exact presOk_sortDropStep _ _
     | presok_step
 
+theorem presOk_sortTailG (es : List (Val × Val)) (kd : List (Val × Val × Val)) (h : Heap) :
+    PresOk Bal (sortTailG es kd h) := by
+  unfold sortTailG
+  repeat first
+    | with_reducible exact presOk_sortInsertStep _ _ _
+    | with_reducible exact presOk_sortDropStep _ _
+    | presok_step
+
 macro "presok_step2" : tactic => `(tactic| first
   | with_reducible exact presOk_sortTail _ _
+  | with_reducible exact presOk_sortTailG _ _ _
   | with_reducible exact presOk_mkRow _ _ _
+  | with_reducible exact presOk_mkRowG _ _ _ _
   | with_reducible exact presOk_scanStep _ (by assumption) _ _
   | with_reducible exact presOk_sortKeyStep (by assumption) _ _
   | with_reducible exact presOk_sortInsertStep _ _ _
